@@ -7,6 +7,15 @@ def repo_commits(prefix):
     return [l.split()[0] for l in out if l.split(" ", 1)[1].startswith(prefix)]
 
 CHECKS = {
+ "C06": ("generated workloads through Uni (5 channel kinds x 3 configurations x 4 spawn functions) and Multi (6 kinds x 4 spawn functions, 1..3 listeners) on real tokio runtimes (current_thread with the clock paused; multi_thread 2 / 4): events over {ok, ok after k yields, ok once a gate opens, error}, concurrency limit 1..4, gate opening before or only after close() was called; processed-set-at-return oracle + end-state checks + nothing-discarded check after the close callbacks",
+         "Exploration: thousands of generated workloads per run; the pipeline records the END of each item's processing, and at the instant close() returns every accepted event must have been recorded by every listener entitled to it (Uni: by some stream), close answered true, running_streams_count()==0, !is_channel_open(); after all close callbacks processed == accepted as multisets. Work is made outstanding at the moment of the call by items that wait for a gate another task opens only some milliseconds into close().",
+         "Task interleavings on the multi-thread runtimes are the OS's (sampled, not controlled): cases there are re-executed up to 25 times before 'does not fail' is believed. No oracle clause compares against a duration; a workload that does not finish is 'inconclusive', never a violation. The bare-channel form (gracefully_end_all_streams with harness-polled streams) is covered by the controlled-scheduler checks of C07 (cancel) and C01/C03 (delivery).", "6 C06"),
+ "C11": ("generated item sequences over {ok, ok after yields, gated ok, error, error after yields, slow = never completes} x the five StreamExecutor::spawn_* functions x 9 instrument settings (named ones + Custom bit sets) x futures timeout on/off x concurrency limit 1..8 x source-stream readiness pattern, on paused-clock and multi-thread tokio runtimes; plus the same accounting through Uni and Multi; counter equation + error-callback ledger + in-flight gauge + dropped-incomplete ledger",
+         "Exploration: thousands of generated (sequence, configuration) pairs per run; in the close callback ok / timed-out / failed must each equal the intended count (so they add up to the number of items) whenever metrics are on, and be zero otherwise; the error callback runs exactly once per failed item; every item that is not slow completes, also after failures and time-outs; slow items' futures are dropped uncompleted; a gauge inside the items never exceeds the limit (per executor, also through Uni with limit < MAX_STREAMS).",
+         "With a real clock, items meant to complete are ready at their first poll, so a time-out can never hit them whatever the machine load (virtual time is used for the waiting variants). 'Metrics on' is decided from the documented bit set, not by calling the library.", "6 C11"),
+ "C12": ("generated workloads (as C06 / C11) with logical stamps from one atomic counter at the end of every item and at the entry of every close callback: executor level (5 spawn functions), Uni (MAX_STREAMS 1/2/4: the latch), Multi (1..3 executors, one optionally ended through flush_and_cancel_executor, log-channel old/new executor pairs with sequential_transition on/off); callback-ledger oracle",
+         "Exploration: thousands of generated workloads per run; every executor's close callback runs exactly once, after the last item of that executor, in state StreamEnded or -- only if it had been scheduled to finish -- ProgrammaticallyEnded, finish >= start; a Uni's callback exactly once after the last item of ANY of its MAX_STREAMS executors, with finished_executors_count == MAX_STREAMS; old/new pairs: old = exactly the events published before subscribing, new = the rest, and with sequential_transition no new event enters processing before the last old one completed.",
+         "Interleavings on multi-thread runtimes are sampled. Out-of-order completion is produced by items that yield / wait next to immediate ones under limit > 1.", "6 C12"),
  "C09": ("generated publisher scripts x subscription calls (new only / old+new split / old+new joined, up front or racing the publishers) x listener speeds x thread schedules on the mmap log channel; log-order oracle established by an auditor replay, split-point / suffix / full-replay checks with real-time bounds, reference stability",
          "Exploration: generated (publishers, subscriptions, schedule) triples under the controlled scheduler, with scheduling points between a publisher's position reservation, its slot write and the in-order advance of the visible tail, and inside the subscription calls; every stream must yield consecutive positions of the one log order at the log's own addresses; joined = everything, old = [0,k) then end, new = [k,N), new-only = gapless suffix; split points bounded by what had been accepted before / was sent after the subscription call; references re-read at the end.",
          "SC interleavings; send_with_async / reserve_slot / old-only subscription are todo!() upstream and excluded; the log order is read back through the library's own joined subscription on the quiescent channel (cross-checked: accepted set, once each, consecutive slots, producer order).", "6 C09"),
@@ -33,7 +42,7 @@ CHECKS = {
          "The payload holds no pointer, so even a destructor running on freed/garbage memory is recorded rather than crashing; real memory corruption kills the supervised child and is reported with the in-flight case as replay. No AddressSanitizer build in this tier.", "6 C05"),
  "C07": ("generated cancel_all_streams() placements x poll steps x sends x thread schedules on all 11 kinds; end-of-stream oracle decided at quiescence + id-reuse probe",
          "Exploration: generated (workload, schedule) pairs with a canceller thread on every channel kind; every stream must have answered end-of-stream when nothing can run any more (parked = violation), nothing yielded after the end, ids reusable and running count exact after the streams are dropped.",
-         "Only cancel_all_streams() is driven under the controlled scheduler; ending one stream (gracefully_end_stream) is exercised by the tokio workload part.", "6 C07"),
+         "cancel_all_streams() is driven under the controlled scheduler (streams may be dropped by their own thread as soon as they ended, as executor tasks do); ending one stream (flush_and_cancel_executor -> gracefully_end_stream) is exercised by the tokio workload part on Multi: the targeted listener processes everything accepted before the call and nothing sent after it ended, the others keep receiving everything.", "6 C07"),
  "C16": ("generated retry workloads (several producers re-sending handed-back inputs against one slow consumer, buffer almost full) x thread schedules on the Uni kinds; ledger + interval rule for 'full' + bounded own steps + capacity probe",
          "Exploration: generated (workload, schedule) pairs; a rejected send must leave nothing behind (never delivered, input handed back untouched), be justified by BUFFER_SIZE slots possibly taken at some instant of the call, return within a bounded number of the caller's own steps, and after all cycles exactly BUFFER_SIZE further sends are accepted.",
          "crossbeam's setter-based sends are only generated while the buffer cannot fill (they wait by documented design).", "6 C16"),
@@ -95,6 +104,6 @@ for pid in ALL:
             "technique": "property-based testing: " + tech,
         })
     else:
-        manifest["not_applicable"].append({"property_id": pid, "reason": "check under construction in this round (designed in DESIGN.md section 6; not claimed until its check is registered)"})
+        manifest["not_applicable"].append({"property_id": pid, "reason": "not claimed"})
 json.dump(manifest, open("/verif/MANIFEST.json", "w"), indent=1)
 print("checks:", [c["property_id"] for c in manifest["checks"]])
